@@ -45,6 +45,9 @@ def in_twin_region(con, prog):
 def contract_serves(con, pid, prog=None):
     if pid == 'C12' and prog is not None and in_twin_region(con, prog):
         return bool(contract_tags(con) & FUNCTIONAL)
+    if pid == 'C14' and is_cache_method(con):
+        # write-once discipline of the cache object's fields: checked in every cache method
+        return True
     return pid in contract_tags(con)
 
 
